@@ -1,8 +1,8 @@
-import CashewsVerif.Lemmas.LruOrder
+import CashewsVerif.Lemmas.LruLeaves
 /-
 C11 — the in-memory backend respects its capacity and evicts least-recently-used first.
 Property theorems only; the ghost-instrumented model is `Model/Lru.lean`, helper lemmas are
-`Lemmas/LruPurge.lean`, `Lemmas/LruGhost.lean`, `Lemmas/LruOrder.lean`.
+`Lemmas/LruPurge.lean`, `Lemmas/LruGhost.lean`, `Lemmas/LruOrder.lean`, `Lemmas/LruLeaves.lean`.
 
 Every theorem quantifies over *all* capacities (0 included) and *all* histories of the `Op` alphabet
 (set / conditional set / set_many / get / get_many / exists / incr / delete / delete_many / expire /
@@ -74,6 +74,37 @@ theorem eviction_is_recorded (x : Lru) (k : Key) (v : Val) (ttl : Option Nat) (k
   · exact absurd h hout
   · simp only [Lru.gSet, h]
     exact List.mem_cons_self
+
+/-- **The `gone` list is what it says**: after every history no key on it is held (a key written again
+is taken off), and every held key has been used. -/
+theorem gone_not_held (cap : Nat) (ops : List Op) :
+    let x := ((Lru.init cap).run ops).1
+    (∀ k ∈ x.gone, k ∉ keys x.mem.store) ∧ (∀ k ∈ keys x.mem.store, k ∈ x.log) :=
+  ⟨(Lru.disj_run cap ops).gone, (Lru.disj_run cap ops).used⟩
+
+/-- **A key leaves the store only for a reason.**  In every reachable state `x` and for every command
+`op`: a key that `x` holds and the successor state does not is either on the successor's `gone` list
+(deleted, cleared, or collected because its deadline had passed — by `gone_not_held` it was not on it
+before), or `op` recorded an eviction of it, and then at least `cap` pairwise distinct other keys were
+used more recently than it.  Nothing else makes a key disappear. -/
+theorem leaves_only_by (cap : Nat) (ops : List Op) (op : Op) (k : Key) :
+    let x := ((Lru.init cap).run ops).1
+    let x' := (x.step op).1
+    k ∈ keys x.mem.store → k ∉ keys x'.mem.store →
+    k ∈ x'.gone ∨
+    ∃ new log, x'.evs = new ++ x.evs ∧ (k, log) ∈ new ∧
+      ∃ W : List Key, W.Nodup ∧ cap ≤ W.length ∧ ∀ w ∈ W, w ≠ k ∧ lastUse log k < lastUse log w := by
+  intro x x' hin hout
+  have hl : Lru.Leaves x x' := (Lru.leaves_closed x).step x op (Lru.leaves_refl (Lru.disj_run cap ops))
+  obtain ⟨_, new, hev, hacc⟩ := hl
+  rcases hacc k hin with h | h | ⟨lg, hlg⟩
+  · exact absurd h hout
+  · exact Or.inl h
+  · refine Or.inr ⟨new, lg, hev, hlg, ?_⟩
+    have hx' : x' = ((Lru.init cap).run (ops ++ [op])).1 := (Lru.run_snoc ops op _).symm
+    apply victim_rule cap (ops ++ [op]) k lg
+    rw [← hx', hev]
+    exact List.mem_append_left _ hlg
 
 /-- **(c) A purge sweep is order-neutral.**  In every reachable state, one sweep of the purge task
 (`for key in dict(self.store): await self.get(key)`) leaves exactly the live entries, values and
